@@ -1152,12 +1152,15 @@ class Context:
         # Share globals with VM (don't copy - allows nested eval to modify globals)
         vm.globals = self._globals
 
-        # Store current VM for timeout checking in RegExp constructor
+        # Store current VM for timeout checking in RegExp constructor.  An exposed Python
+        # callable may call eval() again while an evaluation is running: on the way out
+        # the pointer goes back to the evaluation that is still in progress.
+        previous_vm = self._current_vm
         self._current_vm = vm
         try:
             result = vm.run(compiled)
         finally:
-            self._current_vm = None
+            self._current_vm = previous_vm
 
         return self._to_python(result)
 
